@@ -89,8 +89,9 @@ func hC02seq(n, prefix, L, vlen int) {
 	vCover("C02.seq.done")
 }
 
-func H_C02_seq_q() { hC02seq(3, 3, 2, 2) }
-func H_C02_seq_t() { hC02seq(3, 3, 4, 2) }
+// the prefix overwrites k0, so that the first segment holds a dead record and is eligible for compaction
+func H_C02_seq_q() { hC02seq(3, 4, 2, 2) }
+func H_C02_seq_t() { hC02seq(3, 4, 4, 2) }
 
 // H_C02_meta: metadata round trips with fully symbolic field values.
 func H_C02_meta() {
